@@ -14,8 +14,9 @@ def ubsan_sites(stderr):
         f = os.path.basename(m.group(1))
         fn = re.sub(r'\(.*', '', m.group(4)).replace('ace_time::', '')
         kind = m.group(3).split(':')[0]
+        kind = re.sub(r' \(aka [^)]*\)', '', re.sub(r'index -?\d+', 'index N', kind))     # the first offending index is incidental
         sites.add(('%s:%s:%s' % (f, fn, kind), m.group(3)[:160], '%s:%s' % (m.group(1), m.group(2))))
-    for m in re.finditer(r'ERROR: AddressSanitizer: (\S+)[^\n]*\n(?:[^\n]*\n){0,4}?\s+#0 \S+ in ([^\n]*?) (/\S+):(\d+)', stderr):
+    for m in re.finditer(r'ERROR: AddressSanitizer: (\S+)[^\n]*\n(?:[^\n]*\n){0,4}?\s+#0 \S+ in ([^\n]*?) (/[^\s:]+):(\d+)', stderr):
         sites.add(('%s:%s:asan-%s' % (os.path.basename(m.group(3)), re.sub(r'\(.*', '', m.group(2)).replace('ace_time::', ''), m.group(1)), m.group(1), '%s:%s' % (m.group(3), m.group(4))))
     return sites
 
@@ -46,7 +47,8 @@ def run(tier):
     stride = 9973 if tier == 'quick' else 997
     n = common.NCPU
     span = 2**32 // n
-    jobs = [['instants', str(-2**31 + i * span), str(-2**31 + (i + 1) * span if i < n - 1 else 2**31), str(stride)] for i in range(n)] + [['components']]
+    env['ASAN_OPTIONS'] = env['ASAN_OPTIONS'] + ':halt_on_error=0'      # every site is reported, the sweep goes on
+    jobs = [['instants', str(-2**31 + i * span), str(-2**31 + (i + 1) * span if i < n - 1 else 2**31), str(stride)] for i in range(n)] + [['components'], ['anyarg']]
 
     def vrun(args):
         rc, out_, err, _ = common.run_cmd([vs] + args, env=env, timeout=7000)
@@ -181,6 +183,6 @@ def run(tier):
             value_type_operations_under_sanitizers=nops, zone_observations_under_sanitizers=nobs, ub_sites_seen=len(sites),
             zone_years_buffer_checked=nzy, max_high_water=maxhw, distinct_pool_event_traces=len(traces), pool_traces_accepted=acc,
             basic_zones_cache_checked=len(bimpl), generated_zone_years_buffer_checked=gzy, generated_zones_checked=gzones,
-            rule='(i) every transition of ZoneProc (arguments valid / below / above range / the sentinel) replayed under ASan+UBSan; (ii) value-type operations swept over int32 (stride %d + boundaries) and boundary component tuples / strings in a UBSan-recover build, every distinct UB site reported; zone processors swept under sanitizers at %d s; (iii) high-water mark and pool event protocol (hook H2) of every zonedbx zone x year 1999..2050 against TransitionPool.tla, basic cache drops (hook H1); (iv) the same high-water / cache bounds, years 1999..2050, on tables freshly generated by the real compiler (BufSizeEstimator sizes) from the shipped source and a generated source' % (stride, grid) + (' and tzdata 2025b' if tier == 'thorough' else '') + ', read from the real processors and as invariants NoOverflow / WithinRecordedSize / FitsCache of ExtProc.tla / BasicProc.tla bound to those processors')
+            rule='(i) every transition of ZoneProc (arguments valid / below / above range / the sentinel) replayed under ASan+UBSan; (ii) value-type operations swept over int32 (stride %d + boundaries) and boundary component tuples / strings and every accessor on ANY component values (error values included, no precondition) in an ASan+UBSan-recover build, every distinct UB / out-of-bounds site reported; zone processors swept under sanitizers at %d s; (iii) high-water mark and pool event protocol (hook H2) of every zonedbx zone x year 1999..2050 against TransitionPool.tla, basic cache drops (hook H1); (iv) the same high-water / cache bounds, years 1999..2050, on tables freshly generated by the real compiler (BufSizeEstimator sizes) from the shipped source and a generated source' % (stride, grid) + (' and tzdata 2025b' if tier == 'thorough' else '') + ', read from the real processors and as invariants NoOverflow / WithinRecordedSize / FitsCache of ExtProc.tla / BasicProc.tla bound to those processors')
     chk.assume('undefined behaviour and out-of-bounds accesses are decided by ASan/UBSan on the executions the models and sweeps generate, not by TLC')
     return chk.finish()
